@@ -36,6 +36,7 @@ structure Dt where
   triggers : List Nat    -- downtime.ti:62
   owner : Bool           -- config_owner non-empty
   trigBy : Nat           -- triggered_by (0 = empty)
+  quiet : Bool           -- mirror of `GetCheckable()->IsPaused()`: notification requests are skipped
   removed : Bool
   cleanup : Option Int   -- cleanup point of m_CleanupTimer (fires strictly after it); none = not armed
   starts : Nat           -- ghost: DowntimeStart notification requests
@@ -87,11 +88,11 @@ def markTriggered (t : Int) (d : Dt) : Dt :=
 
 /-- downtime.cpp:518 `OnDowntimeTriggered` → checkable.cpp:243-249 (flexible only) → DowntimeStart. -/
 def noteTriggered (d : Dt) : Dt :=
-  { d with trigEv := d.trigEv + 1, starts := if d.fixed then d.starts else d.starts + 1 }
+  { d with trigEv := d.trigEv + 1, starts := if d.fixed || d.quiet then d.starts else d.starts + 1 }
 
 /-- `OnDowntimeStarted` → checkable.cpp:235-241 (fixed only) → DowntimeStart. -/
 def noteStarted (d : Dt) : Dt :=
-  { d with starts := if d.fixed then d.starts + 1 else d.starts }
+  { d with starts := if d.fixed && !d.quiet then d.starts + 1 else d.starts }
 
 /-- What `TriggerDowntime` does to the object itself once its guard is passed: trigger time, cleanup
     timer, and the `OnDowntimeTriggered` signal.  The signal is emitted after the cascade
@@ -143,7 +144,7 @@ def triggerAll (now t : Int) (dts : List Dt) : List Dt :=
 /-- `Downtime::Stop(runtimeRemoved = true)` → `OnDowntimeRemoved` → checkable.cpp:259-269. -/
 def removeDt (now : Int) (d : Dt) : Dt :=
   { d with removed := true, cleanup := none, remEv := d.remEv + 1,
-           ends := if isTriggered now d then d.ends + 1 else d.ends }
+           ends := if isTriggered now d && !d.quiet then d.ends + 1 else d.ends }
 
 structure St where
   kind : Kind
@@ -152,11 +153,13 @@ structure St where
   lastExec : Option Int      -- execution_start of last_check_result
   dts : List Dt              -- in creation order (= order of ConfigType::GetObjectsByType)
   startNext : Int            -- m_Next of l_DowntimesStartTimer (interval 5, downtime.cpp:97-100)
+  paused : Bool              -- the checkable is paused (no authority): checkable.cpp:255,267
   deriving Repr, DecidableEq
 
 /-- A never-checked checkable at the beginning of a case. -/
 def initSt (k : Kind) : St :=
-  { kind := k, state := 3, lastStateChange := 990, lastExec := none, dts := [], startNext := 1000 }
+  { kind := k, state := 3, lastStateChange := 990, lastExec := none, dts := [], startNext := 1000,
+    paused := false }
 
 structure AddP where
   id : Nat
@@ -173,10 +176,11 @@ inductive Op
   | result (state : Nat) (te : Int) (now : Int)
   | pump (now : Int)
   | remove (id : Nat) (byUser : Bool) (now : Int)
+  | setPaused (b : Bool) (now : Int)      -- the checkable loses / regains authority
   deriving Repr, DecidableEq
 
 def Op.now : Op → Int
-  | .add _ n => n | .result _ _ n => n | .pump n => n | .remove _ _ n => n
+  | .add _ n => n | .result _ _ n => n | .pump n => n | .remove _ _ n => n | .setPaused _ n => n
 
 /-- The object `AddDowntime` creates: `triggered_by` is set only when the named downtime exists
     (downtime.cpp:266-268). -/
@@ -184,7 +188,7 @@ def newDt (st : St) (p : AddP) (now : Int) : Dt :=
   { id := p.id, fixed := p.fixed, start := p.start, fin := p.fin, duration := p.duration, entry := now,
     trigger := 0, triggers := [], owner := p.owner,
     trigBy := if p.trigBy != 0 && (findDt st.dts p.trigBy).isSome then p.trigBy else 0,
-    removed := false, cleanup := none, starts := 0, ends := 0, trigEv := 0, remEv := 0 }
+    quiet := st.paused, removed := false, cleanup := none, starts := 0, ends := 0, trigEv := 0, remEv := 0 }
 
 /-- `Checkable::GetProblem` (checkable.cpp:206-211): there is a check result and its state is not OK. -/
 def St.problem (st : St) : Bool := st.lastExec.isSome && !isOK st.kind st.state
@@ -261,11 +265,18 @@ def removeOp (st : St) (id : Nat) (byUser : Bool) (now : Int) : St × Nat :=
     if d.owner && byUser then (st, 2)                                     -- :372-375
     else ({ st with dts := updateDt st.dts id (removeDt now) }, 1)
 
+/-- The mirror of the pause flag on one existing downtime. -/
+def setQuiet (b : Bool) (d : Dt) : Dt := if d.removed then d else { d with quiet := b }
+
+/-- `ConfigObject::SetAuthority` on the checkable. -/
+def setPausedOp (st : St) (b : Bool) : St := { st with paused := b, dts := st.dts.map (setQuiet b) }
+
 def step (st : St) : Op → St × Nat
   | .add p now => addOp st p now
   | .result s te now => resultOp st s te now
   | .pump now => (pumpOp st now, 0)
   | .remove id u now => removeOp st id u now
+  | .setPaused b _ => (setPausedOp st b, 0)
 
 /-- `Checkable::GetDowntimeDepth` (checkable-downtime.cpp:29-39). -/
 def depth (now : Int) (dts : List Dt) : Nat :=
